@@ -56,18 +56,33 @@ def make_file(rng, k, allow_fatal, big, no_warn=False):
     if not big:
         rng.shuffle(slots)
     tail = []
+    tail_lines = []
     if not big and k and rng.random() < 0.15:
         # unbalanced construct: reported once at the end of the pass
         lines.append('\tif\t1')
         tail.append('E')
         k -= 1
         slots.remove('f')
+    elif not big and k and not no_warn and rng.random() < 0.15:
+        # an entry left on a symbol stack: warning "stack is not empty", raised when the pass is over
+        tail_lines = ['pv%d\tset\t5' % k, '\tpushv\tstk%d,pv%d' % (k, k)]
+        tail.append('W')
+        k -= 1
+        slots.remove('f')
+    if not big and rng.random() < 0.3:
+        # regions that are switched out of the listing: diagnostics raised there are still diagnostics
+        # (switched on again before the end: the summary in the listing is part of what is compared)
+        i_, j_ = sorted([rng.randrange(len(slots) + 1), rng.randrange(len(slots) + 1)])
+        slots.insert(j_, 'lon')
+        slots.insert(i_, 'loff')
     fatal_at = None
     if allow_fatal and k and rng.random() < 0.12:
         fatal_at = rng.randrange(k)
     fi = 0
     for s in slots:
-        if s == 'c':
+        if s in ('loff', 'lon'):
+            lines.append('\tlisting\t%s' % ('off' if s == 'loff' else 'on'))
+        elif s == 'c':
             lines.append(rng.choice(['\tnop', '\tbyt\t1,2,3', 'l%d:\tlda\t#1' % len(lines), '\tadr\t$1234', '; comment']))
         else:
             if fatal_at is not None and fi == fatal_at:
@@ -89,6 +104,7 @@ def make_file(rng, k, allow_fatal, big, no_warn=False):
                     ev.append('E')
             fi += 1
     ev += tail
+    lines += tail_lines
     return '\n'.join(lines) + '\n', ev
 
 
@@ -122,6 +138,12 @@ def run_case(case, ctx):
     if listing:
         opts += ['-L']
     chan = rng.choice(['default', 'file', '!1', '!2', 'perfile'])
+    conlist = (not listing) and (not big) and rng.random() < 0.15
+    if conlist:
+        # listing on the console: a diagnostic shows up once, in the listing (stdout) or, where the listing is switched off, on stderr
+        opts += ['-l']
+        chan = 'default'
+        quiet = True
     if chan == '!1':
         # console text and the error channel are two stdio streams on one descriptor
         # and interleave at buffer boundaries: only compared when the console is silent
@@ -217,7 +239,9 @@ def run_case(case, ctx):
     # ---- channel text
     text_out = r.out.decode('latin-1')
     text_err = r.err.decode('latin-1')
-    if chan == 'default' or chan == '!2':
+    if conlist:
+        chan_text = text_out + '\n' + text_err
+    elif chan == 'default' or chan == '!2':
         chan_text = text_err
     elif chan == '!1':
         chan_text = text_out
@@ -295,4 +319,4 @@ def run_case(case, ctx):
             else:
                 out.obs['listing_summaries_checked'] += 1
     out.sets['statuses_seen'].add(str(r.rc))
-    out.sets['channels'].add(chan)
+    out.sets['channels'].add('console-listing' if conlist else chan)
